@@ -18,7 +18,8 @@ def _jobs(ctx):
     q = ctx.quick()
     n = 40 if q else 500
     return (sc.corpus_job(ctx) + [(f'queue{k}', ['queue', n]) for k in range(8 if q else 12)]
-            + [(f'fixrec{k}', ['fixrec', n]) for k in range(3 if q else 6)])
+            + [(f'fixrec{k}', ['fixrec', n]) for k in range(3 if q else 6)] + [(f'monfix{k}', ['monfix', n]) for k in range(2 if q else 4)]
+            + [('fixsto', ['fixrec_sto', n])])
 
 
 def _nontrivial(e):
@@ -31,7 +32,7 @@ def tie(ctx):
 
 
 def search(ctx, hint):
-    return sc.search_with(ctx, hint, [(f's{k}', ['queue', 200]) for k in range(8)])
+    return sc.search_with(ctx, hint, [(f's{k}', ['queue', 200]) for k in range(5)] + [('m', ['monfix', 300]), ('f', ['fixrec_sto', 200]), ('g', ['fixrec', 200])])
 
 
 def replay(ctx, rep):
